@@ -15,6 +15,11 @@ checked against the allowed-to-change set A of the independent layout model:
            plus the data bytes when wipe is set)
 
 Operations: write a new message (any length), format(wipe=None|0..255).
+
+`history` leg: several operations on ONE tag object (tag.ndef, has_changed,
+assignments, format(version, wipe), optionally with a communication fault at
+a command position); every operation is judged like above against the
+layout the tag memory holds when the operation starts - see run_history.
 """
 import contextlib
 import io
@@ -34,6 +39,13 @@ ASSUMPTIONS = [
     "format() on personalities that re-create the management data (Topaz, "
     "Topaz-512, Type 3) is judged against what its docstring documents",
     "FeliCa Lite and NTAG personalities are not simulated here",
+    "history leg: the allowed set of an operation is derived by the "
+    "independent model from the memory image at the start of that "
+    "operation; a history ends when format() raised (management data may be "
+    "half rewritten), when a Topaz format declared more memory than the "
+    "simulated tag has, and for Type 4 after the first operation that met an "
+    "injected fault (known finding C12-no-resync-after-error); faults are "
+    "never injected on the second SECTOR SELECT packet (as in C16)",
 ]
 
 
@@ -197,6 +209,138 @@ def _region(b, a):
     return "beyond-ndef-area"
 
 
+# histories on one tag object --------------------------------------------------
+def format_allowed(b, product, wipe, area):
+    """bytes format() may change (as in run): what the docstrings name for
+    the personalities that re-create the management data, else the NDEF
+    area"""
+    if b.kind in ("t3t", "t3e"):
+        return set(range(0, len(b.tag.mem)))
+    if product.startswith("Topaz 512"):
+        allowed = set(range(8, 24))
+        if wipe is not None:
+            allowed |= set(range(24, 104)) | set(range(128, 512))
+        return allowed
+    if product.startswith("Topaz"):
+        allowed = set(range(8, 14))
+        if wipe is not None:
+            allowed |= set(range(14, 104))
+        return allowed
+    return set(area[0]) if area is not None else None
+
+
+class _Watch(object):
+    def __init__(self, b, desc, ctx):
+        self.b, self.desc, self.ctx = b, desc, ctx
+        self.writers = 0            # operations that sent write commands
+        self.faulted = False
+        self.judged = 0
+
+    def before(self, i, op, tag):
+        b = self.b
+        self.image = bytes(b.tag.mem)
+        b.tag.wlog[:] = []
+        self.area = tc.current_area(b, self.image)
+        if op["op"] == "format":
+            self.allowed = format_allowed(
+                b, getattr(tag, "_product", ""), op["wipe"], self.area)
+        else:
+            self.allowed = None if self.area is None else set(self.area[0])
+
+    def after(self, i, op, out):
+        b, ctx, desc = self.b, self.ctx, self.desc
+        name = out["op"]
+        ctx.label("%s:%s" % (name, out["status"]))
+        if out["status"] == "error" and out["hits"] == 0 and \
+                not self.faulted:
+            raise unexpected(out["error"], name + "-raises",
+                             detail="op %d, no fault injected so far" % i)
+        if out["hits"]:
+            self.faulted = True
+        if self.allowed is None:
+            ctx.label("history-ends:no-ndef-management-data")
+            return "stop"
+        after = bytes(b.tag.mem)
+        before, allowed = self.image, self.allowed
+        lay = self.area[2] if self.area and b.kind in ("t1t", "t2t") else None
+        changed = [a for a in range(len(before)) if before[a] != after[a]]
+        bad = [a for a in changed if a not in allowed]
+        if bad:
+            where = _region_now(b, lay, bad[0])
+            ctx.set_class("%s/history/%s/%s" % (desc["kind"], name, where))
+            raise Violation("byte-outside-ndef-area-changed",
+                            "op %d (%s): address %d (%s) %02x -> %02x, %d "
+                            "such bytes; %r %r"
+                            % (i, name, bad[0], where, before[bad[0]],
+                               after[bad[0]], len(bad), op, desc))
+        for serial, addr, ln in b.tag.wlog:
+            if not any(a in allowed for a in range(addr, addr + ln)):
+                where = _region_now(b, lay, addr)
+                ctx.set_class("%s/history/%s/%s" % (desc["kind"], name,
+                                                    where))
+                raise Violation("write-command-outside-ndef-area",
+                                "op %d (%s): write unit at %d (+%d) lies "
+                                "wholly outside the NDEF area (%s); %r %r"
+                                % (i, name, addr, ln, where, op, desc))
+        self.judged += 1
+        if b.tag.wlog:
+            self.writers += 1
+            if self.writers >= 2:
+                ctx.nontrivial()
+        if name == "format":
+            if out["status"] == "error":
+                ctx.label("history-ends:format-raised")
+                return "stop"
+            now = tc.current_area(b)
+            if out["result"] is True and b.kind == "t1t" and now and \
+                    now[2]["declared_end"] > now[2]["phys"]:
+                ctx.label("history-ends:format-declares-more-than-physical")
+                return "stop"
+            if out["result"] is True:
+                ctx.label("format-moved-ndef-tlv" if lay and now and
+                          now[2]["tlv_off"] != lay["tlv_off"]
+                          else "format-kept-ndef-tlv")
+        if tc.session_undefined(b, out):
+            ctx.label("history-ends:t4t-fault")
+            return "stop"
+
+
+def _region_now(b, lay, a):
+    if lay is None:
+        return "beyond-ndef-area"
+    if a < lay["data_start"]:
+        return "header/lock/cc"
+    if a >= lay["data_end"]:
+        return "beyond-data-area"
+    if a in lay["reserved"]:
+        return "reserved"
+    if a < lay["tlv_off"]:
+        return "before-ndef-tlv"
+    return "data-area"
+
+
+def run_history(case, ctx):
+    """every operation of a history on one tag object is judged with the
+    oracle of run(): the byte diff of the whole physical image over the
+    operation lies within the allowed set and every write command addresses
+    a unit that intersects it.  The allowed set is the NDEF message area of
+    the layout the memory image holds when the operation starts (independent
+    model: vlib/ref_tlv.layout, attribute block, file size), for format() on
+    Topaz / Topaz-512 / Type 3 what the docstring documents.  Operations
+    with an injected fault may raise nfc.tag.TagCommandError."""
+    desc = case["tag"]
+    b = tc.build(desc, case["old"], case["old_seed"])
+    if b is None:
+        ctx.label("layout-without-room")
+        return
+    ctx.label(tc.classify(desc))
+    ctx.set_class("%s/history" % desc["kind"])
+    w = _Watch(b, desc, ctx)
+    counts = tc.rehearse(desc, case["old"], case["old_seed"], case["ops"])
+    tc.play(b, case["ops"], w, counts)
+    ctx.note({"judged": w.judged, "writers": w.writers})
+
+
 def _leg(name, desc, quick, thorough):
     return Leg(name, run=run, gen=lambda tier: case_strategy(desc),
                quick=quick, thorough=thorough, shards_quick=3,
@@ -218,4 +362,23 @@ LEGS = [
     _leg("t3e", tc.t3t_desc("t3e"), 400, 8000),
     _leg("t4t", tc.t4t_desc().map(
         lambda d: dict(d, fsize=min(d["fsize"], 4000))), 600, 10000),
+    Leg("history", run=run_history,
+        gen=lambda tier: st.fixed_dictionaries({
+            "tag": tc.hist_desc(t2t=3, t1t=5), "old": tc.hist_len(False),
+            "old_seed": st.integers(0, 3), "ops": tc.hist_ops(False)}),
+        quick=4800, thorough=60000, shards_quick=8, shards_thorough=16,
+        nt_floor=0.1,
+        rule="constructed layouts of every tag type (Topaz / Topaz-512 with "
+             "their real memory size, NDEF TLV wherever the layout strategy "
+             "puts it) x old message x 2..7 operations on ONE tag object from "
+             "{tag.ndef, has_changed, assign octets of any length (or the "
+             "last attempted octets again), format(version, wipe)}, each "
+             "optionally with a communication fault (timeout / transmission / "
+             "protocol; command or response lost; burst 1, 2, 3 or until the "
+             "operation ends) starting at its k-th exchange, k reduced modulo "
+             "the operation's exchange count in a fault-free rehearsal; every "
+             "operation is judged (byte diff + write commands against the "
+             "allowed set of the layout present at its start); non-trivial = "
+             "at least two operations of the history sent write commands; "
+             "distinct by case hash."),
 ]
